@@ -81,7 +81,7 @@ func (w *walker) node(v reflect.Value, where string) bool {
 }
 
 func (w *walker) walk(v reflect.Value, where string, depth int) {
-	if depth > 400 {
+	if depth > 200000 { // cycle guard only; the deepest chain of the space is ~5000 reflection levels
 		return
 	}
 	switch v.Kind() {
@@ -317,7 +317,7 @@ func Check() *common.Check {
 		Level: "exploration",
 		Rule: "(S) every struct type of pkg/sql/ast with a Children method (listed from the current source by tools/astreg) x every exported field that can hold a node, " +
 			"populated alone with uniquely tagged content to depth 2; (T) every tree of the sqlgen statement space (quick: without 3/4-operator shapes) " +
-			"and every .sql file under /repo/testdata the parser accepts. Oracle on each root: multiset of nodes seen by ast.Inspect == multiset of node-typed values reachable by reflection. " +
+			"every .sql file under /repo/testdata the parser accepts, and left-deep operator / UNION chains of every length 2..40, around 64..1024 and a ladder up to 1200 operands. Oracle on each root: multiset of nodes seen by ast.Inspect == multiset of node-typed values reachable by reflection. " +
 			"distinct = distinct (type,field) obligations and distinct SQL texts; non-trivial = the root has at least 3 reachable nodes",
 		Assume: []string{"a node is identified by its type and canonical dump (Children() hands out copies of value-typed elements)",
 			"'part of the tree' = reachable through exported fields of the root, as the property states"},
@@ -365,6 +365,59 @@ func Check() *common.Check {
 					}
 				})
 			})
+			// long chains: productions parsed by loops build left-deep trees whose depth is the operand count,
+			// far beyond the parser's nesting limit; every length around powers of two and a ladder up to 1200
+			chain := func(n int, op string) string {
+				parts := make([]string, n)
+				for i := range parts {
+					parts[i] = fmt.Sprintf("c%d", i%7)
+				}
+				return strings.Join(parts, " "+op+" ")
+			}
+			var lens []int
+			for n := 2; n <= 40; n++ {
+				lens = append(lens, n)
+			}
+			for _, p := range []int{64, 128, 256, 512, 1024} {
+				for d := -3; d <= 3; d++ {
+					lens = append(lens, p+d)
+				}
+			}
+			lens = append(lens, 100, 200, 300, 400, 600, 800, 1200)
+			for _, n := range lens {
+				for _, op := range []string{"OR", "AND", "+", "||", "*"} {
+					sql := "SELECT c0 FROM t0 WHERE " + chain(n, op)
+					key := fmt.Sprintf("chain|%s|%d", op, n)
+					e.Do(key, func(c *common.Ctx) {
+						c.Input(key)
+						tree, err := gosqlx.Parse(sql)
+						if err != nil {
+							c.Outcome("chain-rejected")
+							return
+						}
+						compare(c, tree)
+						c.Outcome("chain-tree")
+						c.NonTrivial()
+					})
+				}
+				parts := make([]string, n)
+				for i := range parts {
+					parts[i] = fmt.Sprintf("SELECT c%d FROM t%d", i%7, i%5)
+				}
+				sql := strings.Join(parts, " UNION ALL ")
+				key := fmt.Sprintf("chain|UNION|%d", n)
+				e.Do(key, func(c *common.Ctx) {
+					c.Input(key)
+					tree, err := gosqlx.Parse(sql)
+					if err != nil {
+						c.Outcome("chain-rejected")
+						return
+					}
+					compare(c, tree)
+					c.Outcome("chain-tree")
+					c.NonTrivial()
+				})
+			}
 			// corpus
 			var files []string
 			filepath.Walk("/repo/testdata", func(p string, info os.FileInfo, err error) error {
